@@ -57,6 +57,11 @@ func newCache
   ensures created: result0 != nil && fresh(result0) && !locked(result0.lock) && monitor(result0, "lock") && monitor_assumed(result0, "lock")
   ensures empty: (forall k: !haskey(result0.items, k)) && result0.size == 0 && result0.hit == 0 && result0.miss == 0
   ensures conf_kept: result0.conf.EnableLRU == conf.EnableLRU && result0.conf.OnDelete == conf.OnDelete
+  // the limits are the configured ones (0 = unlimited); only the per-element
+  // limit is ever lowered, to the size limit
+  ensures limits_kept: result0.conf.MaxSize == (conf.MaxSize == 0 ? 18446744073709551615 : conf.MaxSize) &&
+    result0.conf.MaxCount == (conf.MaxCount == 0 ? 18446744073709551615 : conf.MaxCount) &&
+    result0.conf.MaxElementSize == ((conf.MaxElementSize == 0 || conf.MaxElementSize > result0.conf.MaxSize) ? result0.conf.MaxSize : conf.MaxElementSize)
 
 func (*cache).Del
   modifies c.items, c.size, c.hit, c.miss, c.lock, allof("listItem"), allof("map[string]*item")
@@ -126,6 +131,7 @@ func (*cache).Stats
   ensures read_only: c.items == old(c.items) && c.size == old(c.size) && c.hit == old(c.hit) && c.miss == old(c.miss)
 
 func (*cache).Set
+  loops 1
   modifies c.items, c.size, c.hit, c.miss, c.lock, allof("listItem"), allof("map[string]*item")
   requires c != nil && !locked(c.lock)
   callback requires lock_released: !locked(c.lock)
